@@ -4,7 +4,7 @@ import native
 
 def run_native(rp, statuses):
     out, lines, rc, err = native.run('supervision', n=rp['n'], sup=['-' if s is None else s for s in rp['sup']], closed=rp['closed'], statuses=statuses,
-                                     op=rp['op'], a=rp['a'], b=rp['b'])
+                                     op=rp['op'], a=rp['a'], b=rp['b'], remote=':'.join(map(str, list(rp['remote'].items())[0])) if rp.get('remote') else 'none')
     if rc != 0:
         raise RuntimeError('native supervision replay failed: ' + err[-400:])
     obs = {'ret': out['ret'], 'cells': []}
